@@ -299,6 +299,38 @@ pub fn related_unions() -> Vec<Ty> {
     out.into_iter().collect()
 }
 
+impl Ty {
+    /// A different type of the same shape: atoms are permuted (int->string->float->bool->int), union
+    /// member counts and struct field names are preserved. The crate's `Hash` for types is lossy in
+    /// exactly these respects (a union hashes by its member count, a struct type by its field
+    /// names), so a type and its twin are what a memo keyed by such hashes confuses.
+    pub fn twin(&self) -> Ty {
+        match self {
+            Ty::Int => Ty::Str,
+            Ty::Str => Ty::Float,
+            Ty::Float => Ty::Bool,
+            Ty::Bool => Ty::Int,
+            Ty::Arr(e) => Ty::Arr(Box::new(e.twin())),
+            Ty::Mut(e) => Ty::Mut(Box::new(e.twin())),
+            Ty::Tup(ts) => Ty::Tup(ts.iter().map(Ty::twin).collect()),
+            Ty::Struct(fs) => Ty::Struct(fs.iter().map(|(k, t)| (k.clone(), t.twin())).collect()),
+            Ty::Fun(ps, r) => Ty::Fun(ps.iter().map(Ty::twin).collect(), Box::new(r.twin())),
+            Ty::Union(ms) => Ty::union_of(ms.iter().map(Ty::twin).collect()).unwrap_or_else(|| self.clone()),
+            other => other.clone(),
+        }
+    }
+
+    pub fn has_union_or_struct(&self) -> bool {
+        match self {
+            Ty::Union(_) | Ty::Struct(_) => true,
+            Ty::Arr(e) | Ty::Mut(e) => e.has_union_or_struct(),
+            Ty::Tup(ts) => ts.iter().any(Ty::has_union_or_struct),
+            Ty::Fun(ps, r) => ps.iter().any(Ty::has_union_or_struct) || r.has_union_or_struct(),
+            _ => false,
+        }
+    }
+}
+
 /// A seeded depth-3 type (any constructor over depth <= 2 material).
 pub fn sample_depth3(rng: &mut Rng, pool: &[Ty]) -> Ty {
     let pick = |rng: &mut Rng| pool[rng.below(pool.len())].clone();
